@@ -9,6 +9,13 @@ Protocol (one line per request, ASCII):
   pfmt  <text>                               str(ColorFmt.get_plaintext_fmt()(text))
   make  <n> (<fg> <bg> <eff> <nc> <text>)*n @ <value>
                                              t = CHText.make([chunks]) (the other constructor; P = make_plain chunk)
+  lst   <src> <helper> <sink> <n> (<fg> <bg> <eff> <nc> <text>)*n @ <value>
+                                             a chunk LIST through a public list helper, then turned into a str:
+                                             src fmts (the formatters' results) | obj (CHText(*parts).chunks);
+                                             helper id | rs:<len>,<len>.. (CHText.resize_chunks_list once per length:
+                                             pads / truncates / returns the list); sink make (str(CHText.make(res))) |
+                                             ctor (str(CHText(*res))) | ctorl (str(CHText(res))) | join (the chunks printed
+                                             one after the other)
   route <fg> <bg> <eff> <nc> <route> <text> @ <left> <right>
                                              x = ColorFmt(...)(text) turned into a str: str (str(x)) | pct ('%s' % x) | fstr
                                              (f"{x}") | fmt:<spec> (format(x, spec)) | sfmt:<spec> ("{:spec}".format(x)) |
@@ -29,11 +36,11 @@ Protocol (one line per request, ASCII):
   ops   <k> (<fg> <bg> <eff> <nc>)*k program postfix program over CHText operations (token language of C08:
                                              s: c:<id>: ls: tp: mk: add iadd join: idx: sl: fl: dupiadd dupiaddl);
                                              str / plain_text / strip of the resulting CHText or chunk
-  cht / hist / ops lines end with `@ <value> ...`: the chunk list(s) `id:text/id:text` (`_` = none, E:<Name> = the
+  cht / make / lst / hist / ops lines end with `@ <value> ...`: the chunk list(s) `id:text/id:text` (`_` = none, E:<Name> = the
   operations raised) that the REAL object reported when the case was generated. The driver renders that value
   (C09.value_shows is about every value) and the oracle judges str(x) against the object's own chunk list, so a
   change that only breaks what a CHText operation produces (C08) is no C09 alarm. Each such line has a diagnostic
-  twin chtm / histm / opsm (no data) where the model evaluates the operations itself; differences there are logged
+  twin chtm / makem / lstm / histm / opsm (no data) where the model evaluates the operations itself; differences there are logged
   as diagnostics and never reach the verdict.
   strip <text>                               CHText.strip_colors(text)
   term  <text>                               diagnostic: what a terminal shows (Lean `Sgr.interp` against the
@@ -41,8 +48,10 @@ Protocol (one line per request, ASCII):
 eff / nc letters: N None, F False, T True, 0 1 2 (ints), e "", x "x", l [], L [0], z 0.0, h 1.5 - the code's
               contract is truthiness, the oracle requests an effect iff the value is truthy
 colour token: N (None) | s:<code points> | i:<int> | ie:<int> (IntEnum member) | is:<int> (instance of an int subclass) |
-              f:<decimal> (a float) | ib:<0|1> (bool) | t:<num,..> ('-' = empty; component with '.' = float, e<n> IntEnum, s<n> int
-              subclass, b<0|1> bool) | tn: (namedtuple) | ts: (tuple subclass) | o (a bytes object)
+              f:<decimal> (a float) | ib:<0|1> (bool) | t:<member,..> ('-' = empty; member with '.' = float, e<n> IntEnum, s<n> int
+              subclass, b<0|1> bool, N None, a the str 'a', d the str '1', u the tuple (1,), o an object()) | tn: (namedtuple) |
+              ts: (tuple subclass) | l:<member,..> (a list) | lsub: (list subclass) | o (a bytes object) | od {} | od1 {1: 2} |
+              os {1, 2, 3} | of frozenset | oo object() | oc 1j
 eff: five flag letters for bold, faint, underline, blink, crossed;  nc: one flag letter
 strings: comma separated code points, '-' = empty.
 """
@@ -63,19 +72,25 @@ THEOREMS = [
     "C09.text_invalid", "C09.strip_plain", "C09.strip_chunk", "C09.strip_render", "C09.strip_text", "C09.chunks_show",
     "C09.value_shows", "C09.given_shows", "C09.given_of_value", "C09.palette_invalid", "C09.abstraction_sound",
     "C09.hist_shows", "C09.calls_stateless", "C09.invalid_raises_always", "C09.make_shows", "C09.route_shows",
-    "C09.bytes_same",
+    "C09.resize_shows", "C09.resize_modes", "C09.bytes_same",
 ]
 RULE = ("fmt: every fg x bg pair of the 8 names, all 256 ints, all 216 cube triples, g0..g30 (each as fg and as bg), "
         "every int 0-255 also as IntEnum member and as instance of an int subclass, every cube triple also as namedtuple / "
-        "tuple subclass / tuple of mixed int kinds (and malformed ones of each kind), "
+        "tuple subclass / tuple of mixed int kinds / list / list subclass (and malformed ones of each kind), "
         "all 3^5 None/False/True effect settings, every kind of flag value (None False True 0 1 2 '' 'x' [] [0] 0.0 1.5) "
         "at each of the five effects and at no_color for the text and the bytes formatter, all 12x12 pairs for two "
         "flags, random mixes of kinds, malformed values (ints/tuples out of range, wrong lengths, unknown and mangled names, "
-        "floats, tuples with float members, bytes), no_color with valid and invalid values, random ESC-free unicode texts; "
+        "floats, tuples and lists with float / None / str / nested-tuple / object members, bytes, dict, set, frozenset, object(), "
+        "complex - each as color and as bg_color, through ColorFmt and ColorBytes), no_color with valid and invalid values, "
+        "random ESC-free unicode texts; "
         "bytes: the same specs with random ESC-free payloads; cht: CHText of 0..7 parts (chunks of a small pool of "
         "formatters so that neighbours merge, plain strs, empty texts); cht/hist/ops are judged on the object's OWN chunk "
         "list (rendering, attributes, default state between chunks, strip = plain = chunk texts), the model renders that "
-        "list; what the operations produce is compared as a diagnostic only; seq: 2..6 calls in one process - a valid int/tuple "
+        "list; what the operations produce is compared as a diagnostic only; lst: a chunk list (formatters' results, or the "
+        "chunks of CHText(*parts)) through CHText.resize_chunks_list - every new length 0..total+2 after every arrangement of "
+        "<= 3 coloured / plain / empty chunks, two calls in a row, random part lists with random lengths - and then to a str "
+        "through CHText.make / CHText(*res) / CHText(res) / chunk by chunk: judged on the printed list AND on what was "
+        "requested (the parts' cells cut to the new length, or followed by blanks in default state); seq: 2..6 calls in one process - a valid int/tuple "
         "followed/preceded by an equal-but-invalid float value in the same role (every int in thorough), repeated "
         "identical calls, formatter objects used again, the shared plain formatter, invalid calls in between, repeated "
         "texts; hist: one CHText object mutated (+= chunk of the same / another colour, += str, += itself, += [itself], "
@@ -83,7 +98,7 @@ RULE = ("fmt: every fg x bg pair of the 8 names, all 256 ints, all 216 cube trip
         "alphabet plus random ones; ops: random well-typed trees (depth <= 3) of mk/+/+=/join/slice/index/fixed_len/"
         "x+=x over chunks of 1..3 formatters; strip: random strings over ESC [ ; : m ? digits (ASCII and other Unicode "
         "decimal digits) and letters, emitted sequences cut at random places. non-trivial = fmt/bytes with a colour or "
-        "effect or a malformed value, cht/seq with >= 2 parts, hist with >= 2 observations, every ops tree, strip/term "
+        "effect or a malformed value, cht/seq with >= 2 parts, lst with >= 1 part and a helper call, hist with >= 2 observations, every ops tree, strip/term "
         "of a string containing ESC; distinct by protocol line")
 TRUSTED = ["re (regular expression engine; the pattern is read from the source and modelled as ESC [ class* final)",
            "Unicode decimal digit table of the running Python (\\d), passed to the model as generated ranges",
@@ -93,12 +108,13 @@ ASSUMPTIONS = ["colour ids of the CHText model (C08) stand for formatters with p
                "a terminal implements SGR as Sgr.run does: parameters 0,1,2,4,5,9,22,24,25,29,30-37,39,40-47,49 and the "
                "colon forms 38:5:n / 48:5:n (ITU T.416); bold and faint are independent attributes",
                "colour values are None, str, int (also IntEnum members and instances of other int subclasses: the model "
-               "takes their int value), finite float, tuples (also namedtuples / tuple subclasses) of ints/floats or "
-               "objects of another hashable type (bytes); bool is an int kind (True = colour 1, False = colour 0; fix 6baf49c); list, dict and other unhashable "
-               "values and tuples with non-numeric members raise TypeError instead of ValueError in the real code: they are "
-               "kept out of the generated domain as a documented restriction of this check, not as a claim about the code; "
-               "nan/inf and 'g'+<text int() accepts but that is not "
-               "ASCII digits> are outside the domain",
+               "takes their int value), finite float, tuples and lists (also namedtuples / tuple and list subclasses; a list is "
+               "an (r, g, b) value like a tuple) with members of any type (int kinds, float, None, str, nested tuple, object: "
+               "the model keeps int / float / other), or objects of any other type, hashable or not (bytes, dict, set, "
+               "frozenset, object(), complex: one constructor `other` in the model); bool is an int kind (True = colour 1, "
+               "False = colour 0; fix 6baf49c); every invalid value of whatever type must raise ValueError - any other "
+               "exception class is reported (fix a19c1ff); nan/inf and 'g'+<text int() accepts but that is not ASCII "
+               "digits> are outside the domain",
                "state between test cases is not reset (one Python process per worker): failures that depend on what "
                "earlier cases did are reported but may not replay alone; seq/hist/ops cases are self-contained"]
 
@@ -303,6 +319,23 @@ class TupleSub(tuple):
     """a tuple subclass"""
 
 
+class ListSub(list):
+    """a list subclass"""
+
+
+class _Obj:
+    """an object of a type of its own (repr without an address)"""
+    def __repr__(self):
+        return "<obj>"
+
+
+# objects of other types (hashable or not): token -> a fresh value
+OTHER_VALUES = {"o": lambda: b"RED", "od": dict, "od1": lambda: {1: 2}, "os": lambda: {1, 2, 3},
+                "of": lambda: frozenset((1, 2, 3)), "oo": _Obj, "oc": lambda: 1j}
+# members of a tuple / list that are not numbers
+OTHER_MEMBERS = {"N": lambda: None, "a": lambda: "a", "d": lambda: "1", "u": lambda: (1,), "o": _Obj}
+
+
 RGB = collections.namedtuple("RGB", "r g b")
 _ENUMS = {}
 
@@ -315,6 +348,14 @@ def int_enum(n):
 
 
 def _enc_comp(x):
+    if x is None:
+        return "N"
+    if isinstance(x, str):
+        return {"a": "a", "1": "d"}[x]
+    if isinstance(x, tuple):
+        return "u"
+    if isinstance(x, _Obj):
+        return "o"
     if isinstance(x, float):
         return _enc_float(x)
     if isinstance(x, bool):
@@ -333,10 +374,14 @@ def enc_color(v):
         return ("ie:%d" if isinstance(v, enum.IntEnum) else "is:%d" if isinstance(v, IntSub) else "i:%d") % int(v)
     if isinstance(v, float):
         return "f:" + _enc_float(v)
-    if isinstance(v, tuple):
-        kind = "tn:" if isinstance(v, RGB) else "ts:" if isinstance(v, TupleSub) else "t:"
+    if isinstance(v, (tuple, list)):
+        kind = ("tn:" if isinstance(v, RGB) else "ts:" if isinstance(v, TupleSub) else "t:" if isinstance(v, tuple)
+                else "lsub:" if isinstance(v, ListSub) else "l:")
         return kind + (",".join(_enc_comp(x) for x in v) if v else "-")
-    return "o"
+    for tok, mk in OTHER_VALUES.items():
+        if type(v) is type(mk()) and (tok not in ("od", "od1") or bool(v) == (tok == "od1")):
+            return tok
+    raise ValueError("colour value %r is outside the protocol" % (v,))
 
 
 _FLOAT_RE = re.compile(r"-?[0-9]+\.[0-9]+\Z")
@@ -350,6 +395,8 @@ def _enc_float(v):
 
 
 def _dec_num(x):
+    if x in OTHER_MEMBERS:
+        return OTHER_MEMBERS[x]()
     if x[0] == "b":
         return bool(int(x[1:]))
     if x[0] == "e":
@@ -362,8 +409,8 @@ def _dec_num(x):
 def dec_color(tok):
     if tok == "N":
         return None
-    if tok == "o":
-        return b"RED"
+    if tok in OTHER_VALUES:
+        return OTHER_VALUES[tok]()
     k, _, rest = tok.partition(":")
     if k == "s":
         return dec_str(rest)
@@ -377,8 +424,10 @@ def dec_color(tok):
         return IntSub(int(rest))
     if k == "f":
         return float(rest)
-    if k in ("t", "tn", "ts"):
+    if k in ("t", "tn", "ts", "l", "lsub"):
         comps = () if rest == "-" else tuple(_dec_num(x) for x in rest.split(","))
+        if k in ("l", "lsub"):
+            return list(comps) if k == "l" else ListSub(comps)
         return comps if k == "t" else TupleSub(comps) if k == "ts" else RGB(*comps)
     raise ValueError("bad colour token " + tok)
 
@@ -478,7 +527,7 @@ def _own_chunks(x, pairs):
     """the object's own state: its chunk list as (colour id, text) pairs; `u=<prefix>=<suffix>` instead of an id
     = a chunk whose prefix/suffix pair none of the line's formatters produced"""
     m = _mod()
-    chunks = x.chunks if isinstance(x, m.CHText) else [x]
+    chunks = x.chunks if isinstance(x, m.CHText) else x if isinstance(x, list) else [x]
     out = []
     for c in chunks:
         pr = (c.c_prefix, c.c_suffix)
@@ -507,8 +556,11 @@ def _look(x, pairs=None):
     """one observation: str(x), x.plain_text(), strip_colors(str(x)) and (observable lines) the object's own
     chunk list; the model-evaluated diagnostic lines (pairs=None) have no chunk list"""
     m = _mod()
-    s = str(x)
-    base = "%s %s %s" % (enc_str(_canon(s)), enc_str(_canon(x.plain_text())), enc_str(_canon(m.CHText.strip_colors(s))))
+    if isinstance(x, list):              # a chunk list printed chunk by chunk
+        s, pl = "".join(str(c) for c in x), "".join(c.plain_text() for c in x)
+    else:
+        s, pl = str(x), x.plain_text()
+    base = "%s %s %s" % (enc_str(_canon(s)), enc_str(_canon(pl)), enc_str(_canon(m.CHText.strip_colors(s))))
     if pairs is None:
         return base
     return base + " " + _own_chunks(x, pairs)
@@ -641,6 +693,38 @@ def _run_ops(toks, own=True):
     raise RuntimeError("program leaves a %s" % type(x).__name__)
 
 
+LST_SOURCES = ["fmts", "obj"]
+LST_SINKS = ["make", "ctor", "ctorl", "join"]
+
+
+def helper_lens(tok):
+    """helper token -> the lengths CHText.resize_chunks_list is called with, in order"""
+    return [] if tok == "id" else [int(x) for x in tok[3:].split(",")]
+
+
+def _run_lst(toks):
+    """chunks -> public list helper -> str; -> (the object / chunk list that is printed, prefix/suffix pairs)"""
+    m = _mod()
+    src, helper, sink = toks[:3]
+    parts, pairs = _parts(toks[3:])
+    chunks = [p if isinstance(p, m.CHText.Chunk) else m.CHText.Chunk.make_plain(p) for p in parts]
+    if src == "obj":
+        chunks = list(m.CHText(*chunks).chunks)
+    elif src != "fmts":
+        raise RuntimeError("bad source " + src)
+    for n in helper_lens(helper):
+        chunks = m.CHText.resize_chunks_list(chunks, n)
+    if sink == "make":
+        return m.CHText.make(chunks), pairs
+    if sink == "ctor":
+        return m.CHText(*chunks), pairs
+    if sink == "ctorl":
+        return m.CHText(chunks), pairs
+    if sink == "join":
+        return list(chunks), pairs
+    raise RuntimeError("bad sink " + sink)
+
+
 class StepBudget(Exception):
     """the real operations did not finish within the step budget (a hang is a finding of C08, not of C09)"""
 
@@ -678,6 +762,9 @@ def _observe(op, toks):
         parts, pairs = _parts(toks)
         chunks = [p if isinstance(p, m.CHText.Chunk) else m.CHText.Chunk.make_plain(p) for p in parts]
         return [_look(m.CHText.make(chunks), pairs)]
+    if op == "lst":
+        x, pairs = _run_lst(toks)
+        return [_look(x, pairs)]
     if op in ("hist", "histm"):
         return _run_hist(toks, own)
     return _run_ops(toks, own)
@@ -819,7 +906,9 @@ def impl(case):
                 parts, _ = _parts(a)
                 out.append("ok " + enc_str(str(m.CHText.make(
                     [p if isinstance(p, m.CHText.Chunk) else m.CHText.Chunk.make_plain(p) for p in parts]))))
-            elif op in ("cht", "make", "hist", "ops", "chtm", "histm", "opsm"):
+            elif op == "lstm":
+                out.append("ok " + _with_budget(lambda: _look(_run_lst(a)[0])).split()[0])
+            elif op in ("cht", "make", "lst", "hist", "ops", "chtm", "histm", "opsm"):
                 out.append("ok " + "|".join(observe(op, split_data(a)[0])))
             elif op == "pfmt":
                 out.append("ok " + enc_str(str(m.ColorFmt.get_plaintext_fmt()(dec_str(a[0])))))
@@ -838,7 +927,7 @@ def impl(case):
 
 def observable(i, line):
     """diagnostics only: the terminal cross-check and the lines where the model evaluates CHText operations"""
-    return not line.startswith(("term ", "chtm ", "histm ", "opsm ", "makem "))
+    return not line.startswith(("term ", "chtm ", "histm ", "opsm ", "makem ", "lstm "))
 
 
 # ------------------------------------------------------------------ oracle: a terminal + the statement
@@ -968,11 +1057,11 @@ def wanted_colour(v):
         return ("bad",)
     if isinstance(v, int):             # bool included: an int kind (True = colour 1) since fix 6baf49c
         return ("ok", "x%d" % int(v)) if 0 <= v <= 255 else ("bad",)
-    if isinstance(v, tuple):
+    if isinstance(v, (tuple, list)):    # an (r, g, b) value may be a tuple or a list
         if len(v) == 3 and all(isinstance(c, int) and 0 <= c <= 5 for c in v):
             return ("ok", "x%d" % (16 + 36 * v[0] + 6 * v[1] + v[2]))
         return ("bad",)
-    return ("bad",)
+    return ("bad",)                     # a value of any other type
 
 
 def wanted(toks):
@@ -1014,7 +1103,8 @@ def _judge_call(op, a, rep, line):
         st = DEFAULT
     elif verdict == "bad":
         if rep != "err ValueError":
-            return "invalid-accepted: %s gives %s" % (line, rep[:60])
+            # any other exception class (TypeError for an unhashable value ...) is a violation as well
+            return "%s: %s gives %s" % ("invalid-wrong-exception" if rep.startswith("err ") else "invalid-accepted", line, rep[:60])
         return None
     elif verdict == "either" and rep == "err ValueError":
         return None
@@ -1113,7 +1203,7 @@ def oracle(case, replies):
                 w = _ENTRY_WIDTH[toks[i]]
                 entries.append(toks[i:i + w])
                 i += w
-            seen, valid_before = {}, set()
+            seen, valid_before = {}, []           # a list: colour values may be unhashable
             for j, (e, r) in enumerate(zip(entries, res)):
                 key = " ".join(e)
                 if key in seen and seen[key] != r:
@@ -1126,13 +1216,13 @@ def oracle(case, replies):
                     if msg:
                         # the same value (by ==) was accepted earlier in this process: validation has a memory
                         fg, kw = _kwargs(e[1:5])
-                        if msg.startswith("invalid-accepted") and ((fg, "fg") in valid_before or (kw["bg_color"], "bg") in valid_before):
+                        if msg.startswith("invalid-") and ((fg, "fg") in valid_before or (kw["bg_color"], "bg") in valid_before):
                             return "history-dependent: " + msg
                         return "in-sequence " + msg      # own kind: this replay is self-contained
                     fg, kw = _kwargs(e[1:5])
                     if r[0] != "e":
-                        valid_before.add((fg, "fg"))
-                        valid_before.add((kw["bg_color"], "bg"))
+                        valid_before.append((fg, "fg"))
+                        valid_before.append((kw["bg_color"], "bg"))
                 elif e[0] == "P":
                     if r != "s:" + e[1]:
                         return "nocolor-esc: call %d: the plain-text formatter turns %r into %s" % (j, dec_str(e[1]), r)
@@ -1165,7 +1255,8 @@ def oracle(case, replies):
                 verdict, st = ("either" if verdict == "bad" else verdict), DEFAULT
             if verdict == "bad":
                 if rep != "err ValueError":
-                    return "invalid-accepted: %s gives %s" % (line[:80], rep[:60])
+                    return "%s: %s gives %s" % ("invalid-wrong-exception" if rep.startswith("err ") else "invalid-accepted",
+                                                line[:80], rep[:60])
                 continue
             if verdict == "either" and rep == "err ValueError":
                 continue
@@ -1191,9 +1282,12 @@ def oracle(case, replies):
             vis = "".join(c for c, _ in cells)
             if m.CHText.strip_colors(res) != vis:
                 return "route strip: %s: strip_colors(%r) = %r" % (line[:120], res, m.CHText.strip_colors(res))
-        elif op in ("cht", "make", "hist", "ops"):
+        elif op in ("cht", "make", "lst", "hist", "ops"):
             head = split_data(a)[0]
-            if op in ("cht", "make"):
+            lst_head = head
+            if op == "lst":
+                head = head[3:]              # <n> parts, as in a cht / make line
+            if op in ("cht", "make", "lst"):
                 n = int(head[0])
                 states, verdicts = [DEFAULT], []
                 for i in range(n):
@@ -1211,7 +1305,8 @@ def oracle(case, replies):
                 verdict, states, _ = _palette_states(head)
             if verdict == "bad":
                 if rep != "err ValueError":
-                    return "invalid-accepted: %s gives %s" % (line[:80], rep[:60])
+                    return "%s: %s gives %s" % ("invalid-wrong-exception" if rep.startswith("err ") else "invalid-accepted",
+                                                line[:80], rep[:60])
                 continue
             if verdict == "either" and rep == "err ValueError":
                 continue
@@ -1223,7 +1318,7 @@ def oracle(case, replies):
             for j, look in enumerate(looks):
                 msg = _judge_own(look, states, "observation %d of %s" % (j, line[:200]))
                 if msg:
-                    return {"cht": "", "make": "make ", "hist": "history ", "ops": "operations "}[op] + msg
+                    return {"cht": "", "make": "make ", "lst": "list-helper ", "hist": "history ", "ops": "operations "}[op] + msg
             if op in ("cht", "make") and looks:
                 # a text built directly from what formatters returned: the attributes requested for a character are
                 # those of the formatter its part came from. (Only the colours are judged here: when the shown
@@ -1235,6 +1330,20 @@ def oracle(case, replies):
                     msg = _check_shown(dec_str(looks[0].split()[0]), expect, line[:200])
                     if msg:
                         return ("make " if op == "make" else "") + "constructor-" + msg
+            if op == "lst" and looks:
+                # what was requested: the parts' characters with their formatters' attributes, cut to each new length
+                # or followed by blanks nobody asked a colour for (default state). Only the colours are judged: when
+                # the shown characters are not these, that is C08's finding.
+                n = int(head[0])
+                cells = [(ch, states[i + 1]) for i in range(n) for ch in dec_str(head[5 + 5 * i])]
+                for ln in helper_lens(lst_head[1]):
+                    cells = cells[:ln] + [(" ", DEFAULT)] * (ln - len(cells))
+                got = dec_str(looks[0].split()[0])
+                shown = terminal(got, lenient=True)
+                if shown and "".join(c for c, _ in shown[0]) == "".join(c for c, _ in cells):
+                    msg = _check_shown(got, cells, line[:200])
+                    if msg:
+                        return "list-helper " + msg
         elif op == "pfmt":
             if rep != "ok " + a[0]:
                 return "nocolor-esc: the plain-text formatter turns %r into %s" % (dec_str(a[0]), rep)
@@ -1273,7 +1382,7 @@ def rand_valid_color(rng):
     if rng.random() < 0.12 and not isinstance(v, (str, type(None))):
         if isinstance(v, int):
             return bool(v) if v in (0, 1) and rng.random() < 0.5 else rng.choice([int_enum, IntSub])(v)
-        return rng.choice([RGB(*v), TupleSub(v),
+        return rng.choice([RGB(*v), TupleSub(v), list(v), list(v), ListSub(v),
                            tuple(bool(x) if x in (0, 1) and rng.random() < 0.3 else rng.choice([int, int_enum, IntSub])(x) for x in v)])
     return v
 
@@ -1317,7 +1426,13 @@ MALFORMED = [-1, -2, -255, -256, 256, 257, 300, 1000, 2 ** 31, 2 ** 64, -2 ** 64
              "g5x", "gg5", "g0x10", "red", "Red", "green", "GREEN ", " RED", "RED\n", "REDD", "RE", "ORANGE", "GRAY",
              "GREY", "gray", "black", "0", "1", "31", "255", "BRIGHT_RED", "-", "DEFAULT", "None", "g" + "9" * 30,
              "g" + "1" * 5000, "г" + "5", 1.5, -1.0, 256.0, 0.5, 254.5, (1.5, 2, 3), (1, 2, 5.5), (6.0, 0, 0), (-1.0, 0, 0),
-             (0.5, 0.5, 0.5), b"RED"]
+             (0.5, 0.5, 0.5), b"RED",
+             # lists are (r, g, b) values like tuples; members of other types; objects of other types (hashable or not)
+             [], [1], [1, 2], [1, 2, 3, 4], [6, 0, 0], [0, -1, 0], [0, 0, 6], [1.0, 2, 3], [1, 2, 5.5], [255, 255, 255],
+             ("a", 1, 2), (1, "a", 2), (1, 2, "a"), ("1", 2, 3), ["a", 1, 2], [1, 2, "1"], (None, 1, 2), (1, None, 2),
+             [1, 2, None], [None, None, None], ((1,), 2, 3), [1, (1,), 3], (_Obj(), 1, 2), [1, 2, _Obj()], ("a",), ["a", "a"],
+             (None,), ("a", "a", "a", "a"), (True, 7, 0), [False, 0, -1], ListSub([1, 2]), ListSub([0, 0, 9]),
+             {}, {1: 2}, {1, 2, 3}, frozenset((1, 2, 3)), _Obj(), 1j]
 PADDED = ["g00", "g05", "g007", "g023", "g0023", "g024", "g0000", "g" + "0" * 40 + "7", "g" + "0" * 40 + "24"]
 
 
@@ -1329,8 +1444,12 @@ def rand_malformed(rng):
         return rng.choice([rng.randrange(-300, 0), rng.randrange(256, 600), rng.randrange(256, 10 ** 12)])
     if k == 2:
         n = rng.choice([0, 1, 2, 3, 3, 3, 4, 5])
-        t = tuple(rng.randrange(-2, 9) for _ in range(n))
-        return t if wanted_colour(t)[0] == "bad" else (7,) + t[1:]
+        t = [rng.randrange(-2, 9) for _ in range(n)]
+        if t and rng.random() < 0.3:        # a member that is not an int: float, None, str, nested tuple, object
+            t[rng.randrange(n)] = rng.choice([1.0, 2.5, None, "a", "1", (1,), _Obj()])
+        if wanted_colour(t)[0] != "bad":
+            t[0] = 7
+        return rng.choice([tuple, tuple, list, list, TupleSub, ListSub])(t)
     if k == 3:
         base = rng.choice(STD_NAMES + ["g5", "g23", "g"])
         i = rng.randrange(len(base) + 1)
@@ -1364,7 +1483,7 @@ def _case(line, kind):
         # the observable line carries the real object's own chunk list(s) as data; its twin, where the model
         # evaluates the operations itself, is compared as a diagnostic only
         return {"lines": [attach(line), twin(line)], "meta": {"kind": kind}}
-    if line.startswith("make "):
+    if line.startswith(("make ", "lst ")):
         return {"lines": [attach(line), twin(line)], "meta": {"kind": kind}}
     if line.startswith("route "):
         return {"lines": [attach_route(line)], "meta": {"kind": kind}}
@@ -1569,6 +1688,30 @@ def gen_ops(rng):
     return "ops %d %s %s" % (k, " ".join(specs), " ".join(prog))
 
 
+def rand_helper(rng, total):
+    """-> (helper token, mode) for a chunk list holding `total` characters"""
+    def one(t):
+        q = rng.random()
+        if q < 0.45:
+            return t + rng.choice([1, 1, 2, 4, 9])
+        if q < 0.55:
+            return t
+        if q < 0.62:
+            return 0
+        return rng.randrange(0, t) if t else 1
+
+    def mode(n, t):
+        return "pad" if n > t else "equal" if n == t else "trunc"
+    r = rng.random()
+    if r < 0.06:
+        return "id", "id"
+    n1 = one(total)
+    if r < 0.8:
+        return "rs:%d" % n1, mode(n1, total)
+    n2 = one(n1)
+    return "rs:%d,%d" % (n1, n2), "multi-%s-%s" % (mode(n1, total), mode(n2, n1))
+
+
 def small_histories(maxlen):
     """every history of at most `maxlen` mutations over a small alphabet, observed after every mutation
     and at the start (rendering in between is the point)"""
@@ -1610,6 +1753,12 @@ def gen_cases(rng, tier):
         for val in (RGB(*c), TupleSub(c), mixed):
             yield _case("fmt %s %s" % (spec_tokens(val, None), t0), "value-kinds")
         yield _case("fmt %s %s" % (spec_tokens(None, rng.choice([RGB(*c), TupleSub(c), RGB(*mixed)])), t0), "value-kinds")
+        # a list is an (r, g, b) value like a tuple
+        yield _case("fmt %s %s" % (spec_tokens(list(c), None), t0), "value-kinds-list")
+        yield _case("fmt %s %s" % (spec_tokens(rand_valid_color(rng), rng.choice([list(c), ListSub(c), list(mixed)]), rand_eff(rng)), t0),
+                    "value-kinds-list")
+        if thorough or sum(c) % 4 == 0:
+            yield _case("bytes %s %s" % (spec_tokens(list(c), list(reversed(c))), enc_bytes(b"ab")), "value-kinds-list")
     for b in (True, False):
         for eff in ("NNNNN", "TNNNT"):
             yield _case("fmt %s %s" % (spec_tokens(b, None, eff), t0), "value-kinds")
@@ -1620,7 +1769,11 @@ def gen_cases(rng, tier):
         yield _case("seq 3 F %s - F %s - F %s -" % (spec_tokens(b), spec_tokens(int(b)), spec_tokens(b)), "value-kinds")
     for bad in [int_enum(-1), int_enum(256), IntSub(-1), IntSub(256), IntSub(10 ** 20), RGB(6, 0, 0), RGB(0, -1, 0),
                 RGB(1.0, 2, 3), TupleSub(()), TupleSub((1, 2)), TupleSub((1, 2, 3, 4)), TupleSub((0, 0, 6)),
-                (int_enum(6), 0, 0), (0, IntSub(-1), 0), TupleSub((1, 2.5, 3))]:
+                (int_enum(6), 0, 0), (0, IntSub(-1), 0), TupleSub((1, 2.5, 3)),
+                # values of every other type and sequences with members of every other type: ValueError, never TypeError
+                [1, 2], [0, 0, 6], [1, 2.0, 3], ["a", 1, 2], ("a", 1, 2), (1, None, 2), [None, 1, 2], ("1", 2, 3), ((1,), 2, 3),
+                [1, 2, _Obj()], ListSub([1, 2, 3, 4]), RGB("a", 1, 2), TupleSub((None, 0, 0)), {}, {1: 2}, {1, 2, 3},
+                frozenset((1, 2, 3)), _Obj(), 1j, b"RED"]:
         for nc in "FT":
             yield _case("fmt %s %s" % (spec_tokens(bad, None, "NNNNN", nc), t0), "value-kinds-malformed")
             yield _case("fmt %s %s" % (spec_tokens("RED", bad, "TNNNN", nc), t0), "value-kinds-malformed")
@@ -1706,6 +1859,12 @@ def gen_cases(rng, tier):
         if rng.random() < 0.5:
             # the other constructor, CHText.make([chunks]): merges neighbours of the same type, keeps empty chunks
             yield _case("make %d %s" % (n, " ".join(toks)) if n else "make 0", "make-malformed" if bad else "make-%d" % min(n, 4))
+        if rng.random() < 0.5:
+            # the chunk list through the public list helper (pad / truncate / unchanged), then one of the ways to a str
+            total = sum(len(dec_str(t.split()[4])) for t in toks)
+            helper, mode = rand_helper(rng, total)
+            yield _case("lst %s %s %s %d %s" % (rng.choice(LST_SOURCES), helper, rng.choice(LST_SINKS), n, " ".join(toks)),
+                        "lst-malformed" if bad else "lst-" + mode)
     # --- CHText.make with empty chunks at every position among same-type and different-type neighbours
     import itertools
     letters = [("A", ""), ("A", "a"), ("B", ""), ("B", "bc"), ("P", ""), ("P", "p")]
@@ -1716,6 +1875,20 @@ def gen_cases(rng, tier):
             yield _case("make %d %s" % (n, parts), "make-small")
             if n <= 3:
                 yield _case("cht %d %s" % (n, parts), "cht-small")
+            # the list helper at every new length 0 .. total + 2 (all truncation points, unchanged, padding) after every
+            # arrangement of coloured / plain / empty chunks; all sources x sinks (quick, 3 chunks: one drawn pair)
+            if n <= (3 if not thorough else 4):
+                total = sum(len(t) for _, t in combo)
+                full = n <= 2 or (thorough and n <= 3)
+                for ln in range(total + 3):
+                    ways = [(a, b) for a in LST_SOURCES for b in LST_SINKS] if full else [(rng.choice(LST_SOURCES), rng.choice(LST_SINKS))]
+                    for src, sink in ways:
+                        yield _case("lst %s rs:%d %s %d %s" % (src, ln, sink, n, parts), "lst-small")
+                if n <= 2:
+                    for l1 in range(total + 3):
+                        for l2 in range(l1 + 3):
+                            yield _case("lst %s rs:%d,%d %s %d %s" % (rng.choice(LST_SOURCES), l1, l2, rng.choice(LST_SINKS), n, parts),
+                                        "lst-small-twice")
     # --- every route from what a formatter returned to a str
     fills = ["", " ", "*", "m", "0", "[", ";", "_"]
     for _ in range(900 if not thorough else 40000):
@@ -1755,6 +1928,10 @@ def gen_cases(rng, tier):
         if n <= 257:
             yield _case("make %d %s" % (n, " ".join("%s %s" % (pool[(i // 3) % len(pool)], enc_str("k%d" % i)) for i in range(n))),
                         "size-make")
+            for ln in (0, n, 2 * n, 3 * n, 3 * n + 50):
+                yield _case("lst %s rs:%d %s %d %s" % (rng.choice(LST_SOURCES), ln, rng.choice(LST_SINKS), n,
+                                                      " ".join("%s %s" % (pool[(i // 2) % len(pool)], enc_str("k%02d" % (i % 100))) for i in range(n))),
+                            "size-lst")
         two = [pool[0], pool[3]]
         yield _case("hist 2 %s %s %s r %s r" % (two[0], two[1],
                                                " ".join("a:%d:%s" % (1 + i % 2, enc_str("r%d " % i)) for i in range(n)),
@@ -1816,6 +1993,9 @@ def search_cases(rng, tier):
         yield _case("cht 3 %s %s P N NNNNN 0 %s %s %s" % (spec_tokens(v, None), enc_str("a"), enc_str("b"),
                                                           spec_tokens("RED", v, "TTTTT"), enc_str("c")), "search-cht")
         yield _case("bytes %s %s" % (spec_tokens(v, v, "TNTNT"), enc_bytes(b"m;")), "search-bytes")
+        for helper in ("rs:1", "rs:2", "rs:5"):
+            yield _case("lst fmts %s make 1 %s %s" % (helper, spec_tokens(None, v, "NNTNN"), enc_str("ab")), "search-lst")
+        yield _case("lst obj rs:7 join 2 %s %s %s %s" % (spec_tokens("RED"), enc_str("a"), spec_tokens(v, None), enc_str("bc")), "search-lst")
     for n in range(3 ** 5):
         eff = "".join("NFT"[(n // 3 ** i) % 3] for i in range(5))
         for t in texts:
@@ -1852,6 +2032,10 @@ def search_cases(rng, tier):
 def corpus():
     """witnesses of the defect fixed by 0251bc8 (256-colour sequences were not stripped) and other fixed points"""
     return [_case(l, "corpus") for l in [
+        "fmt l:1,2,3 N NNNNN F 120",         # a19c1ff: ColorFmt([1, 2, 3]) raised TypeError (unhashable) instead of colouring
+        "fmt t:a,1,2 N NNNNN F 120",         # a19c1ff: ColorFmt(('a', 1, 2)) raised TypeError instead of ValueError
+        "bytes N l:0,0,5 TNNNN F 97",        # the same through ColorBytes / bg_color
+        "bytes N od NNNNN F 97",             # ColorBytes(None, bg_color={}): TypeError before a19c1ff
         "fmt ib:1 N NNNNN F 120",            # 6baf49c: ColorFmt(True) emitted ESC[38:5:Truem
         "cht 2 ib:1 ib:0 TNNNN F 97 N t:b1,0,b0 NNNNN F 98",
         "fmt i:123 N NNNNN 0 120",
@@ -1861,6 +2045,8 @@ def corpus():
         "bytes i:123 N TNNNN 0 120",
         "fmt s:98,111,103,117,115 N NNNNN 1 120",
         "strip 97,27,91,51,56,58,53,58,49,50,51,109,98,27,91,48,109",
+        "lst fmts rs:6 make 2 s:82,69,68 N NNNNN F 97,98 N s:66,76,85,69 NNNNN F 116,48",     # pad after a coloured chunk
+        "lst obj rs:3 join 2 s:82,69,68 N NNNNN F 97,98 N s:66,76,85,69 NNNNN F 116,48",      # cut inside a coloured chunk
     ]]
 
 
@@ -1895,7 +2081,19 @@ def shrink(case):
                 yield mk(a[:4] + [t])
         elif a[4] != "-":
             yield mk(a[:4] + ["-"])
-    elif op in ("cht", "make"):
+    elif op in ("cht", "make", "lst"):
+        pre = []
+        if op == "lst":
+            pre, a = a[:3], a[3:]
+            lens = helper_lens(pre[1])
+            for i in range(len(lens)):
+                for cand in (lens[:i] + lens[i + 1:], lens[:i] + [lens[i] - 1] + lens[i + 1:]):
+                    if all(x >= 0 for x in cand):
+                        yield mk([pre[0], "rs:" + ",".join(map(str, cand)) if cand else "id", pre[2]] + a)
+            if pre[0] != "fmts":
+                yield mk(["fmts"] + pre[1:] + a)
+            _mk0 = mk
+            mk = lambda toks: _mk0(pre + toks)
         n = int(a[0])
         parts = [a[1 + 5 * i: 6 + 5 * i] for i in range(n)]
         for i in range(n):
@@ -2005,6 +2203,8 @@ def nontrivial(case, replies):
         return a[:3] != ["N", "N", "NNNNN"]
     if op in ("cht", "make"):
         return int(a[0]) >= 2
+    if op == "lst":
+        return int(a[3]) >= 1 and a[1] != "id"
     if op in ("first", "route"):
         return True
     if op == "pfmt":
@@ -2035,9 +2235,23 @@ def tags(case, replies):
         k = int(a[0])
         for t in sorted(set(x.split(":")[0] for x in a[1 + 4 * k:])):
             yield "hist-op:" + t
+    elif op == "lst":
+        yield "lst-src:" + a[0]
+        yield "lst-sink:" + a[2]
+        n = int(a[3])
+        parts = [a[4 + 5 * i: 9 + 5 * i] for i in range(n)]
+        total, lens = sum(len(dec_str(p[4])) for p in parts), helper_lens(a[1])
+        for ln in lens:
+            yield "lst-step:" + ("pad" if ln > total else "equal" if ln == total else "trunc")
+            total = ln
+        last = [p for p in parts if p[4] != "-"][-1:] or parts[-1:]
+        if last:
+            yield "lst-last-chunk:" + ("plain" if last[0][0] == "P" or flag_on(last[0][3]) or (last[0][:2] == ["N", "N"] and not any(flag_on(c) for c in last[0][2]))
+                                       else "coloured")
 
 
-LEVEL_TEXT = ("Proved in Lean for all colour values (incl. floats and float tuples), all effect settings and all escape-free "
+LEVEL_TEXT = ("Proved in Lean for all colour values of every type (None, str, int kinds, float, tuples and lists of any length "
+              "with int / float / other members, objects of any other type), all effect settings and all escape-free "
               "texts, on a model of _ColorSequences.make / _make_seq_element / CHText construction, str() and strip_colors "
               "whose constants (colour table, effect codes, sequence literals, strip pattern class) are regenerated from "
               "ak/color.py on every run: a terminal (SGR interpreter written from ECMA-48/T.416) starting in default state "
@@ -2047,24 +2261,29 @@ LEVEL_TEXT = ("Proved in Lean for all colour values (incl. floats and float tupl
               "operations) and at every observation of any mutation history of one object; strip(render) = plain text "
               "(also embedded in other text); no_color and plain formatters emit nothing; the bytes formatter emits the "
               "same ASCII sequences; mkSeq succeeds exactly on {8 names, 0-255, int (r,g,b) in [0,5]^3 -> 16+36r+6g+b, "
-              "g<digits> <= 23 -> 232+N} and raises ValueError otherwise; effect flags and no_color act through Python's truth "
+              "g<digits> <= 23 -> 232+N} (a list is a tuple) and raises ValueError - no other exception - for every other value of "
+              "any type; a chunk list that passes through CHText.resize_chunks_list any number of times (from the formatters "
+              "or from an object's chunks; printed through CHText.make / CHText(*res) / chunk by chunk) shows the requested "
+              "cells cut to the new length or followed by blanks in DEFAULT state (C09.resize_shows, resize_modes); effect flags and no_color act through Python's truth "
               "value only (any kind of value; text and bytes formatters agree), wherever the call stands in a sequence of calls "
               "(the model of a process carries nothing but the formatter objects from call to call); the id-for-prefix "
               "abstraction of the CHText model is proved sound for the palettes the driver accepts. Judged path (verdict): "
-              "mkSeq/mkChunk/mkSeqBytes/runCalls/strip and, for cht/make/hist/ops, renderGiven of the real object's own "
+              "mkSeq/mkChunk/mkSeqBytes/runCalls/strip and, for cht/make/lst/hist/ops, renderGiven of the real object's own "
               "chunk list (C09.given_shows, linked to value_shows by given_of_value); diagnostic path only: buildChunks / "
-              "histRun / CHText.eval (text_shows, strip_render, hist_shows, abstraction_sound). model = code by "
+              "histRun / CHText.eval / resizeChunks + sinks (text_shows, strip_render, hist_shows, abstraction_sound, resize_shows; "
+              "that the padding of the list helper is shown in default state is in the verdict through the oracle, which "
+              "judges every lst line against the requested cells). model = code by "
               "differential run (exhaustive over names x names, 256 ints, 216 triples, g0-g30, 3^5 effect settings, "
               "int/float pairs, small histories; random texts, part lists, call sequences, histories, operation trees, "
               "strings with ESC fragments).")
-LEVEL_NOTE = ("Kernel-checked: all 32 pinned theorems. JUDGED path of the driver (what the verdict compares): fmt/bytes/pfmt/seq/first lines run mkSeq/mkChunk/mkSeqBytes/runCalls, route lines routeStr with the real pads as data (route_shows, chunk_shows, chunk_resets, strip_chunk, bytes_same, valid_ok, invalid_raises, flags_by_truthiness, calls_stateless ...); cht/make/hist/ops lines run renderGiven/givenChunks/Given.ok on the real object's own chunk list (given_shows; given_of_value ties it to value_shows); strip lines run strip (strip_plain, strip_text). DIAGNOSTIC path only (chtm/makem/histm/opsm twins, never in the verdict; makem: mergeChunks - make_shows): buildChunks, renderText after histRun / CHText.eval - text_shows, strip_render, hist_shows, abstraction_sound are theorems about that model of what the operations produce (C08's subject), value_shows about every value. Rest on the tie only: that the code has no state between calls / "
+LEVEL_NOTE = ("Kernel-checked: all 34 pinned theorems. JUDGED path of the driver (what the verdict compares): fmt/bytes/pfmt/seq/first lines run mkSeq/mkChunk/mkSeqBytes/runCalls, route lines routeStr with the real pads as data (route_shows, chunk_shows, chunk_resets, strip_chunk, bytes_same, valid_ok, invalid_raises, flags_by_truthiness, calls_stateless ...); cht/make/lst/hist/ops lines run renderGiven/givenChunks/Given.ok on the real object's own chunk list (given_shows; given_of_value ties it to value_shows); strip lines run strip (strip_plain, strip_text). DIAGNOSTIC path only (chtm/makem/lstm/histm/opsm twins, never in the verdict; makem: mergeChunks - make_shows; lstm: srcChunks/resizeAll/sinkChunks of Model/SgrResize.lean - resize_shows says the padding is default-state blanks and a cut chunk keeps its attributes; on the real code that clause is judged by the oracle of the lst line, not by the twin): buildChunks, renderText after histRun / CHText.eval - text_shows, strip_render, hist_shows, abstraction_sound are theorems about that model of what the operations produce (C08's subject), value_shows about every value. Rest on the tie only: that the code has no state between calls / "
               "renderings (the model has none by construction - C09.calls_stateless, C09.hist_shows say what that means; "
               "the seq and hist streams and the oracle's per-call judgement test it); what CHText operations produce is not "
               "judged here (C08): the rendering of the real object's own chunk list is (diagnostic twins compare the "
               "operations against Model/CHText.lean); Python's re, str.encode, int(). Trusted: Lean kernel, "
               "translator/adapter/oracle in harness/c09.py, and that real terminals implement SGR as Sgr.run (colon form "
-              "38:5:n). Out of domain by decision (restriction of the check, no claim about the code): list/dict colour values and tuples with non-numeric members (TypeError instead of ValueError), "
-              "'g+5'-style strings accepted by int(), object-lifetime effects (address reuse) across test cases.")
+              "38:5:n). Out of domain by decision (restriction of the check, no claim about the code): "
+              "'g+5'-style strings accepted by int(), nan/inf, object-lifetime effects (address reuse) across test cases.")
 TECHNIQUE = ("Lean 4 theorems (terminal state machine, induction over chunks; finite table facts decided by the kernel "
              "and lifted) + translator for tables/literals/regex class + exhaustive correspondence + independent Python "
              "terminal as oracle")
